@@ -2,7 +2,7 @@
 """Writes /verif/MANIFEST.json from the table below (kept in one place so the entries stay consistent)."""
 import json, subprocess
 
-BUILT = ["C01", "C02", "C04", "C11"]
+BUILT = ["C%02d" % i for i in range(1, 21)]
 
 P = {
  "C01": dict(tech="property-based differential testing (proptest walks + constructed positions + exhaustive K+X v K tables) against an independent reference move generator",
@@ -18,6 +18,57 @@ P = {
    text="Exploration: every visited position's exported text must match the six-field FEN grammar, its fields 1-4 must equal the reference model's rendering of its own state, and re-import must give equal fields, hash and legal list (also equal to the model's legal set).",
    note="Trusted base: reference model. Fields 5-6 are only checked for well-formedness (the engine documents that the halfmove clock is not tracked).", ref="DESIGN.md §4 C11"),
 }
+
+P.update({
+ "C03": dict(tech="property-based testing of the inverse law push/pop = identity on a full observable snapshot, over generated nested play/take-back trees",
+   text="Exploration: for generated roots (imported from text at a generated ply, rest played into the record) every move of the unchecked list is played and taken back, then a picked nested tree to depth 2-6 is walked like a search, king captures included; a snapshot of every observable the property lists (FEN, hash, score, king squares, length, side, both sorted lists, display text) must be identical afterwards, and taking the snapshot twice must change nothing.",
+   note="Observables only; private fields are not read. Roots are sane positions; inner nodes follow unchecked moves as the search does.", ref="DESIGN.md §4 C03"),
+ "C05": dict(tech="property-based collision search over the explored position set (in-shard and cross-shard merge) plus exhaustive single-feature metamorphic variation per sampled position",
+   text="Exploration: injectivity of hash over every distinct position visited by the generated walks and their successors (10^7 scale, merged across shards), and for sampled positions ALL single-feature variations (side, 4 rights, 8-9 en-passant values, 63x10 square contents) imported from text must hash differently from the origin and each other.",
+   note="A true 64-bit collision in ~10^7 positions has probability ~3e-6 and would be reported. Variations need not be sane positions.", ref="DESIGN.md §4 C05"),
+ "C06": dict(tech="stateful property-based testing: generated search histories over one shared transposition table, in-process and through the UCI binary, judged by the reference model",
+   text="Exploration: histories of 1-8 searches (extend / take back / repetition shuffle / other root / ucinewgame, depth 1-5) sharing one table; every announced move must be legal in the reference model's position and no move is announced iff none is legal.",
+   note="Depth-limited searches only; boards with more than 6 heavy pieces are skipped (quiescence is unbounded there). Trusted base: reference model.", ref="DESIGN.md §4 C06"),
+ "C07": dict(tech="exhaustive enumeration of stop instants (node-entry poll index 0..64, then geometric) per generated position via the verification hook, plus UCI go/stop sessions",
+   text="Exploration / schedule enumeration: the hook flips the stop flag after exactly N node-entry polls for all N in 0..=64 and a geometric sample up to the full search; the answer must be a legal move whenever one exists and no node may be entered after the flip; through the binary: go infinite + immediate stop, go movetime 0..10, VERIF_STOP_AFTER_POLLS.",
+   note="Instants = node-entry polls (the only place the recursion reads the flag). Quiescence does not poll: wall-clock promptness is not asserted.", ref="DESIGN.md §4 C07"),
+ "C08": dict(tech="stateful property-based testing of search termination: depth-limited histories with decisive 'info depth > N' symptom, unlimited runs on generated tiny positions with watchdog-as-stop, fixed deep limits",
+   text="Exploration: (a) histories where the depth limit is often below a depth the same position was searched to before (same table): no info depth above the limit, no panic; (b) unlimited searches of generated tiny positions and curated cages for 0.3-1.5 s, in-process and via the binary: no panic, depth strictly increasing <= 255, obeys stop within 2 s, legal answer, no flood, exit 0; then go depth 33/34/64/128/255.",
+   note="Run lengths are seconds; a watchdog without a decisive symptom is inconclusive. A search that ignores stop hangs its shard and is reported through the in-flight case.", ref="DESIGN.md §4 C08"),
+ "C09": dict(tech="differential property-based testing of the optimised search (table disabled by hook) against an exhaustive negamax reference on the same generator and evaluation; metamorphic history pre-fill",
+   text="Exploration: on generated positions, depth 1-4, the table-less score of get_best_move_entry equals an unpruned, unordered reference negamax with the same leaf rules (clamped +-15000), and does not change when the history table is pre-filled with generated values.",
+   note="Reference uses the engine's generator and score (judged by C01/C16) but no search code. Trees above 700k reference nodes, single-reply roots and trees with a move-less quiescence node are skipped and counted.", ref="DESIGN.md §4 C09"),
+ "C10": dict(tech="property-based testing with an independent mate solver as labelling oracle over generated small-material positions (and exhaustive KQK/KRK tables in thorough)",
+   text="Exploration: positions labelled mate-in-1 / forced mate-in-2 / no legal move by the reference solver; depth 3-5 (resp. 5-6) and unlimited searches must play a mating move (resp. keep a forced mate), unlimited searches must stop by themselves, dead roots must yield no move (bestmove none through the binary).",
+   note="'Keeps the forced mate' read as stated: a longer mate is accepted and reported as observation non_shortest. Solver budget exhaustion = inconclusive.", ref="DESIGN.md §4 C10"),
+ "C12": dict(tech="exhaustive enumeration of the 20 480-string move-shape space per generated position (in-process) + generated UCI sessions; libFuzzer target in thorough",
+   text="Exploration with an exhaustive sub-space per case: uci_notation of every legal move equals the model's text and round-trips; for ALL strings [a-h][1-8][a-h][1-8][qrbn]? a string accepted by the membership test must be a legal text that names itself; through the binary `position … moves S` + show: legal text -> model successor, else 'Invalid move' and no third position.",
+   note="Shape space complete per position; positions sampled. Upper-case promotion letters / trailing characters not asserted.", ref="DESIGN.md §4 C12"),
+ "C13": dict(tech="property-based testing of the UCI clock arithmetic through the real binary with boundary-biased generators",
+   text="Exploration: generated go wtime/btime/winc/binc (log-uniform + boundaries, both sides, four field orders) and go movetime: `info time N` must exist with N <= the mover's clock (resp. movetime); short budgets run to completion (bestmove within N + grace), long ones answer isready and stop.",
+   note="Only the allotted figure is decided exactly; wall-clock promptness sampled with grace 2 s (2-5 s inconclusive). Failures re-checked from a fresh process.", ref="DESIGN.md §4 C13"),
+ "C14": dict(tech="model-based (state-machine) generation of UCI command sequences with generated command delays and stretched schedule points (hooks), history invariants on the transcript",
+   text="Exploration of schedules: 3-16 GUI intents interpreted by a GUI state machine, delays 0-100 ms, nine named schedule points stretched by 0/20/100 ms, isready bursts during the first millisecond of a search; invariants: one bestmove per accepted go within its deadline, isready always answered on its own line, refusals while searching, position+go after bestmove honoured, no stray bestmove, no panic, exit 0.",
+   note="Only interleavings reachable by command timing and the named schedule points; not all schedules. Spliced output lines are decisive; timing failures are re-checked from a fresh process.", ref="DESIGN.md §4 C14"),
+ "C15": dict(tech="generated stress inputs against a CHECKED build (debug assertions on) of harness and binary: model-guided high-mobility boards, maximal-length games, self-play, promoted-piece positions",
+   text="Exploration on a checked build: unsafe-precondition violations, arrayvec capacity assertions and Position assertions become panics/aborts; high-mobility boards (model-guided greedy to 200-260+ pseudo-legal moves), games of 380-398 plies + searches (399th ply must be refused), self-play from drawn endings until the process ends, promoted-piece positions.",
+   note="Detects what debug assertions / unsafe precondition checks detect. A shard abort is reported through the in-flight case. Panics in search.rs/uci.rs checked indexing are left to C08/C14.", ref="DESIGN.md §4 C15"),
+ "C16": dict(tech="differential property-based testing of score() against an independent piece-square sum over the reference board; colour-mirror metamorphic relation",
+   text="Exploration: along generated games (import at a generated ply, push_history, search-style push/pop noise) score() of played and re-imported games must equal the independent sum with both kings by the same table; the mirrored game played alongside must score exactly the negation.",
+   note="Which king table applies is not pinned (phase flag private and sticky), only that both kings use the same one. Tables read from scores.rs.", ref="DESIGN.md §4 C16"),
+ "C17": dict(tech="grammar-aware mutation-based property testing of the FEN reader against a strict reference reader + canonicalisation oracle; exhaustive single-edit mutants of fixed FENs; libFuzzer target in thorough",
+   text="Exploration: well-formed FENs (4-6 fields, both en-passant styles) rendered by the model, mutated by 0-3 generated edits; never panics; well-formed sane => imported exactly (fields, hash, legal list); otherwise refused or imported as its most lenient documented reading; sample through the binary (position fen / isready / show / quit).",
+   note="Harmless leniency is not a violation (statement's negative half = never crash, never a different position). Trusted base: strict reader and canonicalisation in c17.rs.", ref="DESIGN.md §4 C17"),
+ "C18": dict(tech="stateful property-based testing: every printed `info pv` line of generated search histories replayed through the reference model",
+   text="Exploration: same histories as C06 (one shared table, in-process stdout capture and UCI sessions); every info pv line must be a sequence of moves legal one after another from the searched position.",
+   note="Trusted base: reference model. Depth 1-5.", ref="DESIGN.md §4 C18"),
+ "C19": dict(tech="metamorphic property-based testing: identical scripts under generated perturbations (nice, ASLR off, env padding, CPU pinning, schedule delays, load) and after history + ucinewgame; byte-identical transcripts",
+   text="Exploration: scripts of 1-4 fixed-depth searches run fresh, under a generated perturbation, and after an unrelated history + ucinewgame; the three transcripts (all info lines and bestmove) must be byte-identical.",
+   note="Perturbations are sampled, not enumerated.", ref="DESIGN.md §4 C19"),
+ "C20": dict(tech="property-based differential testing of the show / Display text (hash, FEN, diagram, move-record tokens) against the reference model, in-process and through the binary",
+   text="Exploration: generated games with all move kinds; Hash line = key-file combination, Fen fields 1-4 and diagram = model rendering, every move-record token parsed and compared with the model's move (piece, origin file, x iff capture, destination, promotion letter).",
+   note="Record format's omission of the origin file on promotions/castling is not asserted.", ref="DESIGN.md §4 C20"),
+})
 
 def main():
     props = [json.loads(l) for l in open("/verif/properties.jsonl")]
